@@ -415,7 +415,11 @@ class Queue(Greenlet):
         wait = self.backoff(envelope, attempts)
         if wait is None:
             for reply, group_env in self._split_by_reply(envelope, replies):
-                reply.message += ' (Too many retries)'
+                # The reply object belongs to the relay, which may hand it
+                # out again: the note goes on a copy.
+                reply = Reply(reply.code,
+                              (reply.message or '') + ' (Too many retries)',
+                              reply.command, reply.address)
                 self._perm_fail(None, group_env, reply)
             # This method may itself be running in the store pool: waiting
             # for another slot of a bounded pool here could wait forever.
